@@ -9,7 +9,8 @@
 (***************************************************************************)
 EXTENDS HMC, IOUtils
 
-CONSTANTS TOLQ,    \* tolerance on positions (units 2^-16)
+CONSTANTS HBI,     \* Hoeffding half-width for the momentum-independence clause: HBI*HBI >= 16*N keys
+          TOLQ,    \* tolerance on positions (units 2^-16)
           TOLA     \* tolerance on 2*alpha   (units 2^-16)
 
 Log == ndJsonDeserialize(IOEnv.TRACE_FILE)
@@ -58,13 +59,30 @@ ChkHmc(e) ==
                            ELSE IF \A kk \in 1..n : Abs(2 * e.alphas[kk] + a2(tr, kk)) <= TOLA THEN "alpha_sign"
                            ELSE "other")}))))
 
+\* Independence of the initial momenta of different selected coordinates (one start state, N keys, L = 1):
+\* p0 is inferred per key and per coordinate from q_1; for independent symmetric momenta the signs of two
+\* coordinates agree with probability 1/2, so |#agree - N/2| <= HBI (Hoeffding, ln(2/delta) <= 32).
+ChkInd(e) ==
+  LET m == Models[MIdx(e.model)]
+      Sel == SelOf(e)
+      N == Len(e.q1)
+      p0(kk, j) == (e.q1[kk][j] - e.q0[j]) * (2^e.e) - TDiv(Grad(m, j, e.q0), 2^(e.e + 1))
+      agree(a, b) == Cardinality({kk \in 1..N : (p0(kk, a) >= 0) = (p0(kk, b) >= 0)})
+      same(a, b) == \A kk \in 1..N : Abs(p0(kk, a) - p0(kk, b)) <= 16
+      pairs == {ab \in Sel \X Sel : ab[1] < ab[2]}
+  IN  IF e.status # "ok" THEN {Fl("C28.leapfrog", e.status)}
+      ELSE IF HBI * HBI < 16 * N THEN {Fl("MACHINERY", "HBI too small for N")}
+      ELSE {Fl("C28.momenta", IF same(ab[1], ab[2]) THEN "identical_momenta_for_two_coordinates"
+                              ELSE "momenta_of_two_coordinates_not_independent") :
+               ab \in {ab \in pairs : Abs(2 * agree(ab[1], ab[2]) - N) > 2 * HBI}}
+
 TInit == i = 0 /\ nfail = 0 /\ nchk = 0 /\ cfg = 0 /\ st = 0 /\ k = 0 /\ phase = "trace"
 TNext ==
   /\ i < NLog
   /\ i' = i + 1
   /\ UNCHANGED <<cfg, st, k, phase>>
   /\ LET e == Log[i + 1]
-         f == ChkHmc(e)
+         f == IF e.op = "hmcind" THEN ChkInd(e) ELSE ChkHmc(e)
      IN  /\ nfail' = nfail + Cardinality(f)
          /\ nchk' = nchk + 1
          /\ (f = {} \/ PrintT(<<"VERDICT", ToJson([ev |-> e.id, fails |-> f])>>))
